@@ -226,8 +226,9 @@ func (e *Engine) verifyFuncInstance(rep *FuncReport, fn *ssa.Function, fc *contr
 	}
 	for _, ax := range e.Axioms {
 		aen := &env{r: r, pkg: ax.Pkg, vars: map[string]TV{}, cur: pre, old: pre, fr: fr}
-		r.assume(c.True(), aen.evalBool(ax.Spec.Body))
-		r.assumedContracts["axiom: "+ax.Spec.Text] = true
+		if r.assumeAxiom(aen, ax) {
+			r.assumedContracts["axiom: "+ax.Spec.Text] = true
+		}
 	}
 	// vacuity: the preconditions (with typing assumptions) are satisfiable
 	r.obls = append(r.obls, &Obligation{Name: name + "#vacuity[requires]", Kind: "vacuity", Props: fc.Props, Func: name,
@@ -432,6 +433,9 @@ func (e *Engine) foreachInstances(fe *contract.Foreach, pkg *pkgRef) ([]foreachI
 func (e *Engine) VerifyLemma(lr *LemmaRef) *FuncReport {
 	l := lr.L
 	rep := &FuncReport{Name: "lemma " + l.Name, Kind: "lemma", Mode: e.Mode}
+	if l.Mode != "" {
+		rep.Mode = l.Mode
+	}
 	insts := []foreachInst{{}}
 	if l.Foreach != nil {
 		var err error
@@ -457,7 +461,7 @@ func (e *Engine) verifyLemmaInstance(rep *FuncReport, lr *LemmaRef, inst foreach
 	if inst.Var != "" {
 		name += "[" + inst.Label + "]"
 	}
-	r := e.newRun(name, "", l.Props)
+	r := e.newRun(name, l.Mode, l.Props)
 	defer func() {
 		if x := recover(); x != nil {
 			msg := ""
@@ -499,7 +503,7 @@ func (e *Engine) verifyLemmaInstance(rep *FuncReport, lr *LemmaRef, inst foreach
 	}
 	for _, ax := range e.Axioms {
 		aen := &env{r: r, pkg: ax.Pkg, vars: map[string]TV{}, cur: cur, old: cur, fr: fr}
-		r.assume(c.True(), aen.evalBool(ax.Spec.Body))
+		r.assumeAxiom(aen, ax)
 	}
 	nAssert := 0
 	for _, st := range l.Steps {
@@ -529,7 +533,8 @@ func (e *Engine) verifyLemmaInstance(rep *FuncReport, lr *LemmaRef, inst foreach
 				}
 			}
 		case "assert":
-			if nAssert == 0 {
+			if nAssert == 0 && (len(l.Binders) > 0 || hasHypothesis(l)) {
+				// (a lemma without binders, assume or let steps has no hypotheses that could be contradictory)
 				r.obls = append(r.obls, &Obligation{Name: name + "#vacuity[hyp]", Kind: "vacuity", Props: l.Props, Func: name,
 					Facts: r.facts[:len(r.facts):len(r.facts)], Goal: en.cur.alive, Expect: "sat", Text: "lemma hypotheses are satisfiable"})
 			}
@@ -571,11 +576,26 @@ func (en *env) callStmt(call *ast.CallExpr) (TV, *node) {
 			}
 		}
 	}
+	var args []TV
+	if sel, ok := call.Fun.(*ast.SelectorExpr); ok && fn == nil {
+		// method call on a lemma variable: recv.M(args)
+		if id, ok := sel.X.(*ast.Ident); ok {
+			if _, isVar := en.vars[id.Name]; isVar {
+				recv := en.derefVar(en.eval(sel.X, nil))
+				if m := en.findMethod(recv.T, sel.Sel.Name); m != nil {
+					fn = m
+					args = append([]TV{recv}, en.evalArgs(call.Args, m, 1)...)
+				}
+			}
+		}
+	}
 	if fn == nil {
 		tv := en.eval(call, nil)
 		return tv, en.cur
 	}
-	args := en.evalArgs(call.Args, fn, 0)
+	if args == nil {
+		args = en.evalArgs(call.Args, fn, 0)
+	}
 	var vals []Value
 	for _, a := range args {
 		vals = append(vals, a.V)
@@ -589,4 +609,28 @@ func (en *env) callStmt(call *ast.CallExpr) (TV, *node) {
 		return TV{V: res, T: rt.At(0).Type()}, after
 	}
 	return TV{V: res, T: rt}, after
+}
+
+// assumeAxiom adds an axiom to the facts of the run. An axiom that does not type-check in the arithmetic
+// mode of this run (it was written for the other mode) is left out: fewer assumptions, never more.
+func (r *run) assumeAxiom(aen *env, ax AxiomRef) (ok bool) {
+	defer func() {
+		if x := recover(); x != nil {
+			if _, isUnsup := x.(unsupported); !isUnsup {
+				panic(x)
+			}
+			ok = false
+		}
+	}()
+	r.assume(r.C().True(), aen.evalBool(ax.Spec.Body))
+	return true
+}
+
+func hasHypothesis(l *contract.Lemma) bool {
+	for _, st := range l.Steps {
+		if st.Kind == "assume" || st.Kind == "let" {
+			return true
+		}
+	}
+	return false
 }
